@@ -148,6 +148,23 @@ func c14Domains(e *domEnv) []*msgDom {
 			}
 		}})
 	}
+	// an authentication entry written as an embedded object that carries only an id (and optionally a controller) differs on
+	// the wire from the plain reference string; if stateless validation admits it, it must sign differently
+	for _, ctl := range []string{"", "x"} {
+		ctl := ctl
+		docField.Classes = append(docField.Classes, fclass{Label: "D1+auth-as-bare-object" + ctl, Odd: true, Set: func(m sdk.Msg) {
+			setDocShape(m, "D1")
+			var d *didtypes.DIDDocument
+			switch x := m.(type) {
+			case *didtypes.MsgCreateDIDRequest:
+				d = x.Document
+			case *didtypes.MsgUpdateDIDRequest:
+				d = x.Document
+			}
+			id := d.Authentications[0].GetVerificationMethodId()
+			d.Authentications = []didtypes.VerificationRelationship{didtypes.NewVerificationRelationshipDedicated(didtypes.VerificationMethod{Id: id, Controller: ctl})}
+		}})
+	}
 	docField.Classes = append(docField.Classes, fclass{Label: "D1-no-context", Odd: true, Set: func(m sdk.Msg) {
 		setDocShape(m, "D1")
 		switch x := m.(type) {
